@@ -52,7 +52,7 @@ package gedcom
 //
 //@ func compareDatesForLetter
 //@   props C06
-//@   let ok = (shapeOK(value.Day, value.Month, value.Year) && shapeOK(start.Day, start.Month, start.Year) && shapeOK(end.Day, end.Month, end.Year))
+//@   let ok = (shapeOK(value.Day, value.Month, value.Year) && shapeOK(start.Day, start.Month, start.Year) && shapeOK(end.Day, end.Month, end.Year)) && dayOf(start.Day, start.Month, start.Year, start.IsEndOfRange) <= dayOf(end.Day, end.Month, end.Year, end.IsEndOfRange)
 //@   ensures letter: implies(ok, result == letter(dayOf(value.Day, value.Month, value.Year, value.IsEndOfRange), dayOf(start.Day, start.Month, start.Year, start.IsEndOfRange), dayOf(end.Day, end.Month, end.Year, end.IsEndOfRange), value.IsEndOfRange))
 //@   assigns nothing
 //
